@@ -4,7 +4,7 @@
    [set_index]/[get_index] the index field.  [Run rt set_index start heap out] is the set of ALL runs of
    SortingMultiReaderIterator: any entry with minimal reception time may be popped (BinaryHeap
    leaves the choice among equal keys unspecified). *)
-From Coq Require Import List NArith Bool Permutation Sorted.
+From Coq Require Import List NArith Bool Permutation Sorted Lia.
 From AdltV Require Import Base.Res Base.MachInt Merge.Multi Merge.MultiProofs Exec.C09.
 Import ListNotations.
 Open Scope N_scope.
@@ -81,6 +81,27 @@ Section Statements.
     destruct its as [|it [|it2 r]]; [right|left|right]; cbn; try (split; [discriminate|reflexivity]).
     exists it. auto.
   Qed.
+
+  (* the same for ANY outer iterator of sources (filter, peekable, chain ...: inexact size hints): as long as the hint
+     is truthful (the std contract) no source is ever dropped -- the result is the numbered concatenation unless the
+     hint is exactly (1, Some 1), in which case the family is the single source, passed through *)
+  Theorem C09_chain_any_size_hint hint start its :
+    hint_truthful hint its ->
+    (exists it, hint = (1, Some 1) /\ its = [it] /\ seq_run_or_single_h set_index hint start its = Ok it) \/
+    (hint <> (1, Some 1) /\ seq_run_or_single_h set_index hint start its = seq_run set_index start its).
+  Proof.
+    intros [Hlo Hhi]. destruct hint as [lo hi]. cbn [fst snd] in Hlo, Hhi.
+    destruct (N.eq_dec lo 1) as [El|Nl].
+    - subst lo. destruct hi as [h|].
+      + destruct (N.eq_dec h 1) as [Eh|Nh].
+        * subst h. left. destruct its as [|it [|it2 r]]; cbn [length] in Hlo, Hhi; try lia.
+          exists it. cbn. auto.
+        * right. split; [intros E; inversion E; congruence|].
+          unfold seq_run_or_single_h. destruct h as [|[q|q|]]; try reflexivity. congruence.
+      + right. split; [discriminate|reflexivity].
+    - right. split; [intros E; inversion E; congruence|].
+      unfold seq_run_or_single_h. destruct lo as [|[q|q|]]; try reflexivity. congruence.
+  Qed.
 End Statements.
 
 (* the concrete message type used by the correspondence check meets the section's hypotheses *)
@@ -113,4 +134,5 @@ Print Assumptions C09_chain_concat.
 Print Assumptions C09_chain_indices.
 Print Assumptions C09_single_source_identity.
 Print Assumptions C09_chain_single_source_identity.
+Print Assumptions C09_chain_any_size_hint.
 Print Assumptions C09_nonvacuous.
